@@ -6,7 +6,7 @@
     float) that meet every hypothesis of C20_gen_wf_partial and C20_gen_decodes. *)
 From Coq Require Import List NArith Bool String.
 From ApiFu Require Import Base.Sexp Gen.GoTypes Gen.ClientGenModel Gen.DecodeModel Gen.ClientGenSpec
-     Gen.ClientGenMain Gen.ClientGenWitness Gen.ClientGenDeclSafe Gen.LoadSchemaModel Gen.LoadSchemaProofs Gen.ClientGenAgree Gen.ClientGenClauses Gen.ClientGenTopS.
+     Gen.ClientGenMain Gen.ClientGenWitness Gen.ClientGenDeclSafe Gen.LoadSchemaModel Gen.LoadSchemaProofs Gen.ClientGenAgree Gen.ClientGenClauses Gen.ClientGenTopS Gen.ClientGenWfS.
 Import ListNotations.
 Open Scope string_scope.
 
@@ -17,7 +17,7 @@ Definition ex_deprecations : deprecations :=
 
 Example c20_hypotheses_hold :
   env ex_schema ex_doc = true /\ schema_loadable ex_schema = true /\
-  excl_member_clash ex_schema ex_doc = false /\ decl_safe ex_schema ex_doc = true /\
+  no_sel_names ex_schema ex_doc = true /\ no_digit_types ex_schema = true /\ lex_names ex_schema ex_doc = true /\
   In ex_op_linked (d_ops ex_doc) /\ op_name ex_op_linked = Some (bs "Q") /\
   conforms ex_schema ex_op_linked ex_resp = true.
 Proof. repeat split; try (vm_compute; reflexivity). left. reflexivity. Qed.
@@ -28,8 +28,8 @@ Example c20_instance :
     exists n v, (forall fuel, (n <= fuel)%nat -> decode_op p fuel (bs "Q") (json_of ex_resp) = DOk v) /\
                 (forall pl, In pl (leaves v) <-> In pl (expected ex_schema ex_op_linked ex_resp)).
 Proof.
-  destruct c20_hypotheses_hold as (H1 & HL & H2 & H3 & H4 & H5 & H6).
-  destruct (real_accepts_wf ex_deprecations ex_schema ex_doc H1 HL H2 H3) as [p [Hg Hw]].
+  destruct c20_hypotheses_hold as (H1 & HL & R1 & R2 & R3 & H4 & H5 & H6).
+  destruct (real_s_wf ex_deprecations ex_schema ex_doc H1 HL R1 R2 R3) as [p [Hg Hw]].
   exists p. split; [exact Hg|]. split; [exact Hw|].
   apply (real_s_decodes ex_deprecations ex_schema ex_doc H1 HL p ex_op_linked (bs "Q") ex_resp Hg H4 H5 H6).
 Qed.
@@ -38,18 +38,27 @@ Qed.
     [user] next to a fragment on [User]; the fragment's field is spelled User_) *)
 Example c20_instance_clash :
   excl_member_clash ex_schema docK1 = true /\
-  exists p, generate_real ex_deprecations ex_schema (doc_valid ex_schema docK1) docK1 = GOk p /\
+  exists p, generate_real ex_deprecations ex_schema (doc_valid ex_schema docK1) docK1 = GOk p /\ wf_program p = true /\
     exists n v, (forall fuel, (n <= fuel)%nat -> decode_op p fuel (bs "K") (json_of respK1) = DOk v) /\
                 (forall pl, In pl (leaves v) <-> In pl (expected ex_schema (hd opM (d_ops docK1)) respK1)).
 Proof.
   assert (H1 : env ex_schema docK1 = true) by (vm_compute; reflexivity).
   assert (HL : schema_loadable ex_schema = true) by (vm_compute; reflexivity).
   split; [vm_compute; reflexivity|].
-  destruct (real_s_accepts ex_deprecations ex_schema docK1 H1 HL) as [p [Hg _]].
-  exists p. split; [exact Hg|].
+  destruct (real_s_wf ex_deprecations ex_schema docK1 H1 HL) as [p [Hg Hw]]; try (vm_compute; reflexivity).
+  exists p. split; [exact Hg|]. split; [exact Hw|].
   apply (real_s_decodes ex_deprecations ex_schema docK1 H1 HL p (hd opM (d_ops docK1)) (bs "K") respK1 Hg);
     [left; reflexivity | vm_compute; reflexivity | vm_compute; reflexivity].
 Qed.
+
+(** the residue is what fails on the remaining known finding: on K8 (an enum named selQuery0) exactly
+    [no_sel_names] is false; on K5-like declaration clashes that are repaired (K2: constants RED / red)
+    the residue holds and [C20_gen_wf] applies *)
+Example c20_residue_on_witnesses :
+  no_sel_names schemaK8 docK8 = false /\ no_digit_types schemaK8 = true /\ lex_names schemaK8 docK8 = true /\
+  excl_decl_clash schemaK2 docK2 = true /\
+  no_sel_names schemaK2 docK2 = true /\ no_digit_types schemaK2 = true /\ lex_names schemaK2 docK2 = true.
+Proof. repeat split; vm_compute; reflexivity. Qed.
 
 (** the instance is not trivial: the response has leaves below fragments of both concrete types *)
 Example c20_instance_nontrivial :
